@@ -245,10 +245,16 @@ def make_signal(rng, clsname, n, *, nchan=None, extra=None, dtype=None, rate=Non
         ch = chunks if chunks is not None else rand_chunks(rng, x.shape, time_chunked)
         xin = da.from_array(x, chunks=ch)
     aged = AGING and _side_rng(rng).random() < 0.2
-    if aged:
-        sig = _aged(cls, clsname, xin, kw, _side_rng(rng))
-    else:
-        sig = cls(xin, **kw)
+    try:
+        if aged:
+            sig = _aged(cls, clsname, xin, kw, _side_rng(rng))
+        else:
+            sig = cls(xin, **kw)
+    except Exception as exc:
+        from .core import ValidInputRefused
+        shown = {k: (str(v) if k != "meta" else v) for k, v in kw.items()}
+        raise ValidInputRefused("valid_signal", f"{clsname}(data {x.shape} {x.dtype}{' dask' if dask else ''}, {shown}){' built through setters' if aged else ''} "
+                                                f"raised {type(exc).__name__}: {exc}", {"cls": clsname, "aged": bool(aged)})
     desc = {"cls": clsname, "aged": bool(aged), "shape": list(x.shape), "dtype": str(dtype), "rate": str(rate),
             "start": None if start is None else f"{start.scale}:{start.isot}",
             "dask": bool(dask), "mem": memkind}
